@@ -19,8 +19,10 @@ pub const TOKEN_PRECISION: u64 = 1_000_000_000_000_000_000;
 pub mod ext { pub mod datacap {
     use super::super::*;
 //@ item actors/verifreg/src/ext.rs MintParams
+//@ item actors/verifreg/src/ext.rs DestroyParams
 } }
 use ext::datacap::MintParams;
+use ext::datacap::DestroyParams;
 
 pub open spec fn verifiers_of(s: State) -> Map<Address, BigIntDe> { map2_decode::<Address, BigIntDe>(s.verifiers) }
 
@@ -70,6 +72,38 @@ pub open spec fn verifiers_of(s: State) -> Map<Address, BigIntDe> { map2_decode:
             && final(rt).sends@.last().value == 0,
         r.is_ok() ==> exists|p: ext::datacap::MintParams| final(rt).sends@.last().params == Some(IpldBlock { h: #[trigger] cbor_hash(p) })
             && p.to == *to && p.amount@ == amount@ * 1_000_000_000_000_000_000 && p.operators@ == operators@,
+//@ end
+
+
+// ---------------- token movements requested from the datacap actor must SUCCEED (a tolerated failure would desynchronise the ledgers) ----------------
+//@ fn actors/verifreg/src/lib.rs transfer sub0="ext :: datacap :: Method :: Transfer as u64=>datacap_transfer_method()" sub1="Default :: default ()=>RawBytes::default()"
+    requires !old(rt).in_tx@,
+    ensures
+        rt_frame(old(rt), final(rt)), final(rt).sends@.len() <= old(rt).sends@.len() + 1,
+        // "expired and refunded to its client": Ok only if the refund transfer really happened, for exactly `amount` to exactly `to`
+        r.is_ok() ==> rt_pushed(old(rt), final(rt)) && final(rt).sends@.last().ok
+            && final(rt).sends@.last().to == DATACAP_TOKEN_ACTOR_ADDR && final(rt).sends@.last().method == datacap_transfer_method_spec(),
+        r.is_ok() ==> exists|p: TransferParams| final(rt).sends@.last().params == Some(IpldBlock { h: #[trigger] cbor_hash(p) })
+            && p.to == (Address { id: to, proto: 0 }) && p.amount@ == amount@ * 1_000_000_000_000_000_000,
+//@ end
+//@ fn actors/verifreg/src/lib.rs burn sub0="ext :: datacap :: Method :: Burn as u64=>datacap_burn_method()"
+    requires !old(rt).in_tx@,
+    ensures
+        rt_frame(old(rt), final(rt)), final(rt).sends@.len() <= old(rt).sends@.len() + 1,
+        amount@ == 0 ==> r.is_ok() && *final(rt) == *old(rt),
+        // "claimed ... (its tokens burnt)": Ok only if the burn of exactly `amount` really happened
+        amount@ != 0 && r.is_ok() ==> rt_pushed(old(rt), final(rt)) && final(rt).sends@.last().ok
+            && final(rt).sends@.last().to == DATACAP_TOKEN_ACTOR_ADDR && final(rt).sends@.last().method == datacap_burn_method_spec()
+            && exists|p: BurnParams| final(rt).sends@.last().params == Some(IpldBlock { h: #[trigger] cbor_hash(p) }) && p.amount@ == amount@ * 1_000_000_000_000_000_000,
+//@ end
+//@ fn actors/verifreg/src/lib.rs destroy sub0="ext :: datacap :: Method :: Destroy as u64=>datacap_destroy_method()"
+    requires !old(rt).in_tx@,
+    ensures
+        rt_frame(old(rt), final(rt)), final(rt).sends@.len() <= old(rt).sends@.len() + 1,
+        amount@ == 0 ==> r.is_ok() && *final(rt) == *old(rt),
+        amount@ != 0 && r.is_ok() ==> rt_pushed(old(rt), final(rt)) && final(rt).sends@.last().ok
+            && final(rt).sends@.last().to == DATACAP_TOKEN_ACTOR_ADDR && final(rt).sends@.last().method == datacap_destroy_method_spec()
+            && exists|p: DestroyParams| final(rt).sends@.last().params == Some(IpldBlock { h: #[trigger] cbor_hash(p) }) && p.owner == *owner && p.amount@ == amount@ * 1_000_000_000_000_000_000,
 //@ end
 
 // ---------------- add_verified_client: transaction closure ----------------
